@@ -18,13 +18,23 @@ Record ginput := {
   g_trees : list node;
   g_results : list gres;
   g_out : string;
-  g_counters : list Z
+  g_counters : list Z;
+  g_reports : list string     (* runtime error report per tree, addresses masked; "" when none or not compared *)
 }.
 
 Fixpoint zl_eqb (a b : list Z) : bool :=
   match a, b with
   | [], [] => true
   | x :: a', y :: b' => (x =? y) && zl_eqb a' b'
+  | _, _ => false
+  end.
+
+Definition tree_agrees_rep (check_report : bool) (m : tree_result) (g : gres) (rep : string) : bool :=
+  match m, g with
+  | TValue x, GValue y => vsame x y
+  | TError e r, GError f => err_eqb e f && (negb check_report || String.eqb r rep)
+  | TRefused, GRefused => true
+  | TAbort _, GPanic => true
   | _, _ => false
   end.
 
@@ -42,6 +52,25 @@ Definition tree_agrees (m : tree_result) (g : gres) : bool :=
 
 (* result codes: 0 agree, 1 disagree, 2 stack grew while a frame was captured
    (finding K1 territory), 3 dead frame read (finding K2 territory), 4 model out of fuel *)
+Fixpoint run_trees_rep (nostck : bool) (mc : machine) (ts : list node) (gs : list gres) (reps : list string) : machine * Z :=
+  match ts, gs with
+  | [], [] => (mc, 0)
+  | t :: ts', g :: gs' =>
+      let (mc', r) := run_tree nostck mc t in
+      if v_grew_captured (mc_vm mc') then (mc', 2)
+      else if v_dead_read (mc_vm mc') then (mc', 3)
+      else match r with
+           | TFuel => (mc', match g with GHang => 5 | _ => 4 end)
+           | _ => if tree_agrees_rep true r g (hd "" reps) then
+                    match g with
+                    | GPanic => (mc', 5)
+                    | _ => run_trees_rep nostck mc' ts' gs' (tl reps)
+                    end
+                  else (mc', 1)
+           end
+  | _, _ => (mc, 1)
+  end.
+
 Fixpoint run_trees (nostck : bool) (mc : machine) (ts : list node) (gs : list gres) : machine * Z :=
   match ts, gs with
   | [], [] => (mc, 0)
@@ -73,6 +102,24 @@ Fixpoint chk_inputs (nostck : bool) (check_counters : bool) (mc : machine) (l : 
       else if negb (String.eqb (out_text (mc_vm mc')) (g_out g)) then 1
       else if check_counters && negb (zl_eqb (counters mc') (g_counters g)) then 1
       else chk_inputs nostck check_counters mc' r
+  end.
+
+Fixpoint chk_inputs_rep (mc : machine) (l : list ginput) : Z :=
+  match l with
+  | [] => 0
+  | g :: r =>
+      let (mc', code) := run_trees_rep false (set_out_empty mc) (g_trees g) (g_results g) (g_reports g) in
+      if code =? 5 then 0
+      else if negb (code =? 0) then code
+      else if negb (String.eqb (out_text (mc_vm mc')) (g_out g)) then 1
+      else chk_inputs_rep mc' r
+  end.
+
+(* sessions with the runtime error reports compared too (C19) *)
+Definition chk_session_reports (l : list ginput) : Z :=
+  match machine_new with
+  | Some mc => chk_inputs_rep mc l
+  | None => 1
   end.
 
 Definition chk_session (l : list ginput) : Z :=
